@@ -11,6 +11,7 @@ PEER_SETTINGS = "00040e0801ab603742013301ab60374301"   # ec=1, wt=1, datagram=1,
 
 class C19(Prop):
     id = "C19"
+    thorough_rounds = 12   # thorough tier: this many independently seeded rounds of the random generators (duplicates dropped)
     modules = ["H3.Props.C19"]
     engines = ["wt"]
     design_ref = "DESIGN.md section 7, C19"
